@@ -29,7 +29,7 @@ func exactSec(pub uint32, off uint16) int64 {
 
 func runC15(r *core.Run) {
 	r.Level = "exploration"
-	r.Rule = "published in {0,1,2^31-1,2^31,2^31+1,2^32-2,2^32-1,now} x ALL 65,536 expires offsets for LeaseSet2, EncryptedLeaseSet and MetaLeaseSet (values obtained by parsing reference encodings); Lease2 end dates and offline expiry over {0, 2^k-1, 2^k, 2^k+1 (k<32), 2^32-1, now+-1d} through constructor AND parser; NewLease2 on out-of-range times: 2^k and neighbours (k=32..62), a grid of 40,000 instants between 2^32 and 2^62 s, negatives, sub-second parts at both edges; 8-byte lease dates below 2^63; offline-signature and meta-entry expiry; lease sets: all tuples of 1..6 dates over a 3-value menu, all permutations of 4 distinct dates, 16 leases with the extremum at every position with ties; IsExpired at +-1 day. Oracle: math/big arithmetic on the raw fields. non-trivial = distinct (structure, published, offset) triples and lease-date tuples evaluated"
+	r.Rule = "published in {0,1,2^31-1,2^31,2^31+1,2^32-2,2^32-1,now} x ALL 65,536 expires offsets for LeaseSet2, EncryptedLeaseSet and MetaLeaseSet (values obtained by parsing reference encodings); Lease2 end dates and offline expiry over {0, 2^k-1, 2^k, 2^k+1 (k<32), 2^32-1, now+-1d} through constructor AND parser; NewLease2 on out-of-range times: 2^k and neighbours (k=32..62), a grid of 40,000 instants between 2^32 and 2^62 s, negatives, sub-second parts at both edges; 8-byte lease dates below 2^63; offline-signature and meta-entry expiry; lease sets: all tuples of 1..6 dates over three 3-value menus (minutes apart; within one second and across a second boundary; 1 ms apart), all permutations of 4 distinct dates, 16 leases with the extremum at every position with ties; IsExpired at +-1 day. Oracle: math/big arithmetic on the raw fields. non-trivial = distinct (structure, published, offset) triples and lease-date tuples evaluated"
 	bad := func(clause, fn, detail string) {
 		r.Violate("C15|"+clause+"|"+fn, detail, core.Case{Kind: "sweep", Args: map[string]string{"fn": fn, "detail": detail}})
 	}
@@ -283,25 +283,27 @@ func runC15(r *core.Run) {
 		}
 		r.Distinct([]byte("set"), key)
 	}
-	menu := []uint64{1900000000000, 1900000600000, 1900001200000}
-	for n := 1; n <= 6; n++ {
-		idx := make([]int, n)
-		for {
-			ds := make([]uint64, n)
-			for i, k := range idx {
-				ds[i] = menu[k]
-			}
-			evalSet(ds)
-			k := 0
-			for ; k < n; k++ {
-				idx[k]++
-				if idx[k] < len(menu) {
+	// three menus: minutes apart, inside one second / straddling a second boundary, and 1 ms apart
+	for _, menu := range [][]uint64{{1900000000000, 1900000600000, 1900001200000}, {1900000000100, 1900000000900, 1900000001500}, {1900000000999, 1900000001000, 1900000001001}} {
+		for n := 1; n <= 6; n++ {
+			idx := make([]int, n)
+			for {
+				ds := make([]uint64, n)
+				for i, k := range idx {
+					ds[i] = menu[k]
+				}
+				evalSet(ds)
+				k := 0
+				for ; k < n; k++ {
+					idx[k]++
+					if idx[k] < len(menu) {
+						break
+					}
+					idx[k] = 0
+				}
+				if k == n {
 					break
 				}
-				idx[k] = 0
-			}
-			if k == n {
-				break
 			}
 		}
 	}
